@@ -154,4 +154,20 @@ def optimalImpl (cfg : Cfg) (cols : List Col) (n : List Nat) (start : Nat) (cur0
           (setupRow cols width (offs.getD 1 0) n0 n1 (prefix_bonus_init cfg.preferPrefix start) cur0 cells0))
   | _ => none
 
+/-- what `fuzzy_match_optimal` leaves in the scratch memory once `populate_matrix` has returned: the row offsets, the
+    last row of the score matrix from its offset on, and the back-pointer cells written (`matrix_cells[..matrix_len]`);
+    `none` when `setup` finds no match -/
+def matrixState (cfg : Cfg) (cols : List Col) (n : List Nat) (start : Nat) (cur0 : List ScoreCell) (cells0 : List MatrixCell) :
+    Option (List Nat × List ScoreCell × List MatrixCell) :=
+  match n with
+  | n0 :: n1 :: ns =>
+    let offs := rowOffs n cols
+    if offs.length ≠ n.length then none
+    else
+      let width := cols.length + 1 - n.length
+      let s := populateGo cols width 1 (n1 :: ns) offs.tail
+        (setupRow cols width (offs.getD 1 0) n0 n1 (prefix_bonus_init cfg.preferPrefix start) cur0 cells0)
+      some (offs, s.cur.drop (offs.getD (n.length - 1) 0 + 1 - n.length), s.cells.take s.off)
+  | _ => none
+
 end NucleoVerif.OptImpl
